@@ -10,7 +10,8 @@ CLAIMS = {
              "code equal productions [2][4][4a][13][81] for every natural number (re-proved on every run against "
              "freshly extracted tables), and that the name productions of the grammar translated from the Rust source "
              "accept exactly NCName / Nmtoken (Name: current lax behaviour characterised, recorded finding); tie: "
-             "exhaustive extraction + translator + exhaustive short-string enumeration against the real productions.",
+             "exhaustive extraction + translator + exhaustive short-string enumeration against the real productions AND the DOM factories "
+             "(create_element / create_attribute / create_processing_instruction / create_entity_reference); encoding names against [81].",
         note="Trusted: Lean kernel (axioms propext, Classical.choice, Quot.sound), transcription of the W3C ranges "
              "(lean/XmlRsModel/Chars.lean), harness `classes`/`nameok`, tools/translate.py (combinator skeleton; nom "
              "combinator semantics re-implemented in Peg.lean), generators. QName: `qname_accepts_iff` (the strings the translated `qname` production accepts are exactly Namespaces [7]).",
@@ -105,7 +106,9 @@ CLAIMS = {
              "elements deeper than the limit constant read from the source by the translator (so every recursion over an accepted "
              "document is bounded). Tie: outcome class (ok/rest/err vs panic/abort/timeout) of the real pipeline (both DOM views, "
              "Display, pretty, DOM walk) in an isolated worker on garbage, token mutants and 21 adversarial families incl. hostile "
-             "sizes, compared with the model's class; growth ratio time(2n)/time(n) per family.",
+             "sizes, compared with the model's class; growth ratio time(2n)/time(n) per family; wide shallow documents on a 256 KiB stack; "
+             "printing into sinks of every capacity that answer Ok(0) / an error / take one byte per call (must end, with an error while "
+             "something is unwritten).",
         note="Partial by nature: real stack exhaustion and running time are runtime facts the model cannot exhibit; they are measured "
              "(outcome classes, doubling ratios), not proved. `xml_fuel_sufficient` (the model driver's fuel formula never runs out) is "
              "checked on every explored input, not proved. Trusted: Lean kernel, translator, harness `pipeline`, generators.",
@@ -237,7 +240,8 @@ CLAIMS = {
              "DOM Level 1 reading of each mutator (effect incl. moving an attached node, replace = remove + insert with restore, "
              "exception classes and their order). Tie/monitor: histories with receivers/arguments of every kind and position and "
              "markup-significant strings: no panic, failed call leaves the dump unchanged, status and full dump (with node identities) "
-             "equal the model's after every call.",
+             "equal the model's after every call; plus a MATRIX of every mutator with every kind of node as the receiver (1660 short "
+             "histories), nodes of another document (same text read twice), and calls that must change nothing in the text-expanded view.",
         note="EFFECT theorems (Thm/C13Effect.lean, for every state satisfying the C12 invariant, i.e. every state reachable from a "
              "parsed document): after insertBefore/appendChild the parent's child ids are its former children without the new child, "
              "in order, with the new child in front of the reference child / at the end, and the new child reports that parent; after "
